@@ -37,6 +37,12 @@ def run(ctx) -> None:
 
     ctx.rule("C08.nocache", "T8: a GPR holds no derived state besides the gene set it re-derives on every read (shared with C08)", floor=5)
     c08.check_nocache(ctx)
+    # a knock-out reaches a reaction through the model's gene object: the reaction has to be linked to that object,
+    # not to a private one with the same identifier (shared with C02)
+    from . import genesform
+
+    ctx.rule("C02.genes", "finite evaluation: update_genes_from_gpr links a reaction to the model's own gene objects for exactly the identifiers of its rule (shared with C02)", floor=1)
+    ctx.guard(genesform.check_update_genes, ctx, "C02.genes")
 
 
 # ------------------------------------------------------------------------------------------ eval
